@@ -151,8 +151,9 @@ CLAIMED['C19'] = {
     'text': 'For all outcome vectors within the bounds: host-key phase opens at most one connection per advertised probed type, never two at once, one KEXINIT and one key-exchange '
             'request per connection; GEX phase <= 9 connections per algorithm, one request each, all closed; audit() runs the rate check exactly when not skipped with limits '
             '(1.5 s, 38, 3), never the DoS features, closes every socket and retries over SSH-1 at most once whatever each connection answers; the rate-check loop under a symbolic clock keeps concurrent sockets <= limit, attempts <= max + '
-            'concurrent, closes everything and terminates.',
-    'note': 'Rate loop explored for small parameter values (max 1..2, concurrent 1..2, 0.2 s) and <= 8 select rounds, not for the shipped (38, 3, 1.5 s); select contract: an empty result blocked for the timeout; probe sockets/key-exchange groups are stubs.',
+            'concurrent, closes everything and terminates; at the SHIPPED limits (1.5 s, 38, 3) the same follows for runs of any length from solver-checked inductive steps of the three loops of _dh_rate_test '
+            '(invariant: attempts <= 38, tracked <= 3, opened + tracked <= attempts, open == tracked; progress in a well-founded order).',
+    'note': 'Whole runs of the rate loop are explored for small parameter values (max 1..2, concurrent 1..2, 0.2 s) and <= 8 select rounds; the shipped parameters are covered by the inductive steps (composition is a paper argument, base case syntactic); select contract: an empty result blocked for the timeout; probe sockets/key-exchange groups are stubs.',
 }
 
 CLAIMED['C07'] = {
